@@ -9,6 +9,9 @@ Stage C: the Lean model (`c02leaves`, `c02poke`, `c02iso` driver commands) again
 Stage D: exhaustive member probing of the Python classes against the compiler-derived descriptor, in every call form:
          pack() / pack(buffer, offset) into caller-supplied buffers at zero and non-zero offsets, unpack(buffer) /
          unpack(buffer, offset), and array members given in every equivalent spelling of one logical value.
+         Value classes behind a type tag (configuration values, fault payloads): every class x values shared between
+         classes of one field shape x several orders in this one process, through every carrier message, against the
+         C++ image for that class (payload size as documented per tag in the header, struct sizes from the compiler).
 """
 import copy
 import json
